@@ -1,11 +1,65 @@
 # Driver configuration of C19 (text fields end up in MANIFEST.json and the evidence file).
 PROP = {'engine': 'c19',
  'race': True,
+ 'gcflags': 'all=-d=checkptr=0',
  'parallel': 8,
  'level': 'exploration',
  'crash_is_violation': True,
  'technique': 'Go race detector + emitted-signature monitor + linearizability checking by sequential replay of recorded request histories',
- 'rule': 'placeholder',
- 'assumptions': [],
- 'min_cases': {'quick': 60, 'thorough': 1500},
+ 'rule': 'history = one real node (identity = deputy 0/1/2 of 3-5, so it signs confirms and can mine; one identity per child process) + material '
+         'pre-built on a helper node: 0-2 stabilised prefix blocks, a tree of 3-8 blocks with siblings above the stable block with block times in '
+         '[now-200 s, now-10 s] (confirm broadcast needs blocks younger than 3 min; times are searched with the repository\'s own GetCorrectMiner so '
+         'that the node is in turn NOW on most tips and the real BlockChain.MineBlock succeeds), the other deputies\' confirm signatures. 2-4 client '
+         'goroutines issue <= 7 mutating requests (BlockChain.InsertBlock of wire copies, some carrying embedded confirms; DPoVP.InsertConfirms '
+         'packets incl. wrong-height ones; BlockChain.MineBlock) concurrently with 1-2 reader goroutines (CurrentBlock, StableBlock, '
+         'GetBlockByHash/Height, HasBlock, GetCandidatesTop(head), IterateUnConfirms, LoadLatestBlock, GetConfirms, AccountManager().GetCanonicalAccount, '
+         'account.NewManager(stable).GetAccount, TxProcessor().ReadContract incl. the reward precompile). Shapes: random / deepchain / forks / mine / '
+         'bgsign (a packet makes a deep pre-inserted block stable so that the background batch confirm signs its ancestors while other clients insert '
+         'the next blocks) plus 4 fixed-shape histories in every run. Hook H7 (verifhook.Yield) at 5 sites between critical sections, seeded per '
+         'history: off / runtime.Gosched / 0.5-5 ms sleep; every third repetition without delays. Every history is executed 3 times (quick) / 20 times '
+         '(thorough) on fresh nodes. Monitors: (1) race detector over everything, class = unordered pair of innermost repository frames; '
+         '(2) every BlockConfirmData on the public confirm topic must recover to the node\'s own id over the named hash and name an offered/mined block '
+         'at that height, every self-mined block\'s header signature likewise; (3) call/return stamps of one atomic counter + result (accepted / '
+         'refused) per request; the final state (offered/mined blocks held, head, stable, signer set per block) must equal the outcome of some order '
+         'consistent with real-time precedence and program order, executed request by request on a fresh node by the real implementation; first '
+         'candidate = return-stamp order, then DFS over all consistent orders with pruning at the first request whose result differs, capped at '
+         '40/150 replays. distinct = distinct (shape, deputies, identity, slot, tree shape, per-client request kinds, yield modes); non-trivial = '
+         'at least one pair of overlapping requests of different clients and (stable block advanced or a block was mined)',
+ 'assumptions': ['MASKING RISK: race reports are classified by the unordered pair of innermost repository function names. A new defect that races on a pair of '
+                 'functions already listed as a known finding is not distinguished from the known one; and one root cause (a reader that walks the '
+                 'unconfirmed tree without the lock) shows up under several pairs, depending on which field of a freshly published block is touched first',
+                 'the race build disables checkptr (-gcflags=all=-d=checkptr=0): with it the vendored common/crypto/sha3/xor_unaligned.go (cast of &buf[0] to '
+                 '*[21]uint64) makes the runtime throw "converted pointer straddles multiple allocations" as soon as a trie node above 136 bytes is hashed; '
+                 'it reads only len(buf) bytes, so this is checkptr strictness, not a C19 observation',
+                 'linearizability: the sequential specification is the implementation itself. The background batch confirm (goroutine started by UpdateStable) '
+                 'changes compared state asynchronously; in a candidate order it is one pseudo request per height that became stable, ordered after the request '
+                 'that moved the stable block and after the lower heights, otherwise free (in replays the real goroutine ends at its Yield site and the harness '
+                 'calls Confirmer.BatchConfirmStable(h,h) at the chosen position; tag-only accessor DPoVP.VerifConfirmer). NORMALISATION: signer sets = '
+                 'recovered node ids of header signature + stored confirms; on blocks at or below the final stable height the node\'s OWN id is removed '
+                 'before comparing (the real background signer checks "enough confirms" and appends in two separate critical sections, so its own signature '
+                 'may be present in addition to a packet that a strictly sequential order would have refused); on unstable blocks nothing is removed',
+                 'request results are compared as accepted / refused only (the error value of a refused InsertBlock depends on whether the unlocked '
+                 'isIgnorableBlock pre-check or the locked verification refuses it); BlockChain.InsertConfirms drops its error, so packets are issued through '
+                 'the engine entry it forwards to (DPoVP.InsertConfirms)',
+                 'BlockChain.MineBlock stamps the wall clock and reports nothing: whether it produced a block is learnt from the NewMinedBlock topic; every '
+                 'failed attempt (not in turn, slot boundary passed) is a no-op, never a verdict. In a replay a mining request either is a no-op or inserts '
+                 'the block that was actually mined, which additionally must have the head of that moment as parent',
+                 'the concurrent run is read after quiescence (nothing observable changed for 200 ms, bounded by 6 s); before a not-linearizable verdict the '
+                 'state is read once more 1 s later. A search that reaches its replay cap or its 90 s watchdog only increments linearizability_inconclusive',
+                 'reads are not part of the linearizability check (only per-reader monotonicity of the stable height). A read that panics because the hash it '
+                 'names was pruned between two reads (GetCandidatesTop(CurrentBlock().Hash()), account.NewManager(hash)) also does so sequentially: counted '
+                 '(reads_panicked_on_stale_hash), not judged; any other panic of a read is a violation',
+                 'block times and therefore hashes depend on the wall clock at process start and interleavings are up to the scheduler: a seed fixes the '
+                 'structure of every history (fingerprints), not the bytes; race reports vary per run, hence the repetitions',
+                 'the yield handler does not synchronise (one atomic load of an immutable plan); the stamp counter is touched by the mutating clients only, '
+                 'which the chain lock orders anyway; readers use no harness synchronisation while requests run',
+                 'one node under test at a time per process; the self node key is written once per process after all material has been built'],
+ 'level_note': 'exploration: seeded histories x repetitions under the scheduler\'s interleavings widened by yield/sleep injection; no claim of schedule '
+               'coverage. Masking risk: a new race on an already-known pair of functions is not distinguished from the known finding. Linearizability '
+               'modulo the node\'s own signature on stable blocks and modulo the kind of refusal.',
+ 'min_cases': {'quick': 100, 'thorough': 1800},
+ 'min_stats': {'quick': {'overlapping_request_pairs': 150, 'stable_heights_advanced': 60, 'mine_produced_block': 8, 'emitted_confirms_checked': 100,
+                         'lin_searches': 100, 'reads': 3000},
+               'thorough': {'overlapping_request_pairs': 3000, 'stable_heights_advanced': 1200, 'mine_produced_block': 150, 'emitted_confirms_checked': 2000,
+                            'lin_searches': 1800, 'reads': 60000}},
  'timeout_s': {'quick': 600, 'thorough': 3600}}
